@@ -29,6 +29,9 @@ func ContainsPipe(expr string) bool {
 
 // IsComplexExpr checks if an expression contains operators like ==, ===, !=, <, >, +, -, etc.
 func IsComplexExpr(expr string) bool {
+	// operators inside string literals do not count
+	expr = MaskQuoted(expr)
+
 	// Comparison and logical operators - can appear anywhere
 	operators := []string{"==", "===", "!=", "!==", "<=", ">=", "&&", "||"}
 	for _, op := range operators {
@@ -66,6 +69,28 @@ func NormalizeComparisonOperators(expr string) string {
 			i += 2
 		} else {
 			result = append(result, expr[i])
+		}
+	}
+	return string(result)
+}
+
+// MaskQuoted returns expr with the content of its string literals ("..." and '...') replaced
+// by underscores; the result has the same length, so offsets found in it are valid for expr.
+func MaskQuoted(expr string) string {
+	if !strings.ContainsAny(expr, "\"'") {
+		return expr
+	}
+	result := []byte(expr)
+	quote := byte(0)
+	for i := 0; i < len(result); i++ {
+		ch := result[i]
+		switch {
+		case quote == 0 && (ch == '"' || ch == '\''):
+			quote = ch
+		case quote != 0 && ch == quote:
+			quote = 0
+		case quote != 0:
+			result[i] = '_'
 		}
 	}
 	return string(result)
